@@ -241,7 +241,7 @@ CLAIMED = {
         "Trusted: Coq kernel + VM; harness/fingerprint.py (which fields constitute the physical content: bases of a unit with a zero "
         "exponent are not compared, following Units.__eq__); sampled correspondence (150 objects quick, 3000 thorough); the translator "
         "harness/translate_schemas.py (Python ast -> Model/Schemas.v; it reads the literal synonym table passed to process_input_dict_keys, "
-        "string-literal look-ups on the processed dictionary and the writers' dictionary literals, and fails on anything else); trajectories with a coarse-graining map and diverged (non-finite) trajectories are not generated / discarded.",
+        "string-literal look-ups on the processed dictionary and the writers' dictionary literals, and fails on anything else); diverged (non-finite) trajectories are discarded; coarse-grained trajectories (own system differing from the script's) are generated for reflecting grids only.",
         "DESIGN.md section 6 / C12"),
     "C13": (
         "Coq proof of layout (species-major index), value (SI of density x volume), units and get/set array laws + random-system correspondence",
